@@ -8,7 +8,7 @@ VARIABLE l
 
 TraceLog == ndJsonDeserialize(IOEnv.VERIF_TRACE)
 ToSet(q) == {q[i] : i \in DOMAIN q}
-AbsSvc(n) == IF n = "svc-a" THEN "A" ELSE IF n = "svc-b" THEN "B" ELSE n
+AbsSvc(n) == IF n = "svc-a" THEN "A" ELSE IF n = "svc-b" THEN "B" ELSE IF n = "svc-c" THEN "C" ELSE n
 
 TInit == TLCSet(1, 0) /\ Init /\ l = 1
 Ev(e) == l <= Len(TraceLog) /\ TraceLog[l].ev = e /\ l' = l + 1
